@@ -85,7 +85,10 @@ def run_world(sc, base, location, order_seed, spell=None, enclosing=None):
     imp.sc, imp.base, imp.root = sc2, base, root
     imp.iifile = os.path.join(base, "_ii_" + str(abs(hash(location))) + ".txt")
     imp.flat_n = 0
-    for p, d in sc["tree"].items():
+    items = list(sc["tree"].items())
+    if spell or enclosing:
+        items.reverse()  # (the second world is filled in the opposite order: other inode numbers for the same names)
+    for p, d in items:
         rt.mk(root, {p: scenario.data_bytes(d)})
     exits = []
     for op in sc["ops"]:
